@@ -722,5 +722,13 @@ m('filestore-add-mkdir-only-for-nested-names','C09','storage/gcsemu/filestore.go
 			return fmt.Errorf("could not create dirs for:  %s: %w", f, err)
 		}
 	}''','R68/','a top-level object in a bucket whose directory was removed cannot be written')
+# ---- C20 / R70: re-entrant acquisition
+m('listing-resolves-metadata-inside-the-walk','C20','storage/gcsemu/walk.go',
+  '''		if count >= maxResults {
+			moreResults = true''','''		if m, _ := g.store.ReadMeta(baseUrl, bucket, filename, fInfo); m == nil {
+			return nil
+		}
+		if count >= maxResults {
+			moreResults = true''','R70/','the memory store walks under the bucket lock and ReadMeta takes it again: the listing deadlocks')
 json.dump(M, open('/verif/mutants.json','w'), indent=1)
 print(len(M),'mutants')
